@@ -1,5 +1,10 @@
 import RactorModel.Lemmas.PgSpec
 import RactorModel.Lemmas.PgNotify
+import RactorModel.Lemmas.PgConcGlob
+import RactorModel.Lemmas.PgConcNotify
+import RactorModel.Lemmas.PgConcLin
+import RactorModel.Lemmas.PgConcLeak
+import RactorModel.Lemmas.PgConcHold
 
 /-!
 # C11 — process groups reflect live membership and tell their monitors
@@ -399,6 +404,378 @@ example :
     let st := run init [.join 1 0 [1], .exit 1, .join 1 0 [1, 2], .monitor 0 1, .monitorScope 0 1]
     getMembers st 1 0 = [2] ∧ st.rel.map (·.1) = [2] ∧ st.world = [] := by decide
 
+/-! ### Everything concurrent, lock region by lock region (`Pg.Conc`)
+
+`Model/PgConc.lean`: any number of actors exiting at the same time, each exit stepped region by region
+(`mark`, `demonitor_all`: drain + one forward entry per step, `leave_all`: drain + one forward entry per
+step + finish), any number of caller threads inside `join_scoped` / `leave_scoped` / `monitor` /
+`monitor_scope` / `demonitor` / `demonitor_scope`, each stepped region by region in the order of
+`pg.rs` — `join_scoped`'s entry-lock region itself one relations lock at a time (`joinLock`, one
+`joinOne` per distinct actor with the status re-check, `joinCommit`), with every region that needs a
+held group entry blocked and everything else (the relations-lock-only regions of the exits included)
+running in between; a schedule is ANY list of `Tid`s. `g0 ops calls` = the threads about to make `calls`
+in a state reached by the API-level history `ops`. -/
+
+/-- the start of a concurrent run: API-level history `ops`, then the threads `calls`, nothing begun -/
+def g0 (ops : List Op) (calls : List Conc.Pc) : Conc.G := Conc.start (run init ops) calls
+
+theorem conc_inv (ops : List Op) (calls : List Conc.Pc) (sched : List Conc.Tid) (a : Nat) :
+    Conc.VInv a (Conc.gView (Conc.run (g0 ops calls) sched)) (Conc.phaseOf (Conc.run (g0 ops calls) sched) a) :=
+  (Conc.allInv_run (Conc.allInv_start (inv_run inv_init ops) calls).1
+    (Conc.allInv_start (inv_run inv_init ops) calls).2 sched).1 a
+
+/-- **The cross-index invariant, weakened exactly by what is in flight.** For EVERY schedule and every
+actor `a`: (1) reverse ⊆ forward: a membership in `a`'s reverse index without its forward entry is one
+that a `join_scoped` holding that group entry has accepted and not yet inserted (`accOf`) — nothing else;
+a group-monitor or world-monitor entry without its forward entry is a stale one recorded in the ghosts
+`staleG` / `staleW`: left by the entry region of a `demonitor` / `demonitor_scope` whose
+`get_actor_relations` — done before the entry is taken — had found no `Arc` (a `monitor*` of the same actor
+ran in between); (2) forward ⊆ reverse can
+fail for `a` only inside `a`'s OWN exit, and then every stale forward entry (or accepted-but-uncommitted
+membership) is one of the keys that exit has drained and not yet visited (`demon gk wk`: stale listener
+entries ⊆ `gk` / `wk`; `leaving mk _`: stale member entries ⊆ `mk`); no operation of any other thread —
+join, leave, monitor, demonitor, their clean-up regions, the regions of other actors' exits — ever
+accounts for such a discrepancy; (3) what the exit has drained from the reverse index stays drained. -/
+theorem conc_cross_index_windows (ops : List Op) (calls : List Conc.Pc) (sched : List Conc.Tid) (a : Nat) :
+    let g := Conc.run (g0 ops calls) sched
+    ((∀ k, k ∈ relMem g.st a → a ∈ membersOf g.st k ∨ a ∈ Conc.accOf g k) ∧
+      (∀ k, k ∈ relGmon g.st a → a ∈ listenersOf g.st k ∨ (a, k) ∈ g.staleG) ∧
+      (∀ s, s ∈ relWmon g.st a → a ∈ worldOf g.st s ∨ (a, s) ∈ g.staleW)) ∧
+    (∀ k, a ∈ membersOf g.st k ∨ a ∈ Conc.accOf g k →
+      k ∈ relMem g.st a ∨ ∃ mk rm, Conc.phaseOf g a = .leaving mk rm ∧ k ∈ mk) ∧
+    (∀ k, a ∈ listenersOf g.st k → k ∈ relGmon g.st a ∨ ∃ gk wk, Conc.phaseOf g a = .demon gk wk ∧ k ∈ gk) ∧
+    (∀ s, a ∈ worldOf g.st s → s ∈ relWmon g.st a ∨ ∃ gk wk, Conc.phaseOf g a = .demon gk wk ∧ s ∈ wk) ∧
+    (Conc.drainedG (Conc.phaseOf g a) → (∀ k, k ∉ relGmon g.st a) ∧ (∀ s, s ∉ relWmon g.st a)) ∧
+    (Conc.drainedM (Conc.phaseOf g a) → ∀ k, k ∉ relMem g.st a) := by
+  intro g
+  have h := conc_inv ops calls sched a
+  refine ⟨⟨h.rM, h.rL, h.rW⟩, ?_, ?_, ?_, h.drG, h.drM⟩
+  · intro k hk
+    have := h.fM k hk
+    generalize Conc.phaseOf g a = ph at this
+    cases ph with
+    | leaving mk rm => exact Or.inr ⟨mk, rm, rfl, this⟩
+    | done => exact absurd this id
+    | _ => exact Or.inl this
+  · intro k hk
+    have := h.fL k hk
+    generalize Conc.phaseOf g a = ph at this
+    cases ph with
+    | live => exact Or.inl this
+    | marked => exact Or.inl this
+    | demon gk wk => exact Or.inr ⟨gk, wk, rfl, this⟩
+    | _ => exact absurd this id
+  · intro s hs
+    have := h.fW s hs
+    generalize Conc.phaseOf g a = ph at this
+    cases ph with
+    | live => exact Or.inl this
+    | marked => exact Or.inl this
+    | demon gk wk => exact Or.inr ⟨gk, wk, rfl, this⟩
+    | _ => exact absurd this id
+
+/-- Forward ↔ reverse agreement for every actor that is not inside its own exit — whatever all the
+other threads and all the other exits are in the middle of: full `↔` for memberships (counted with what a
+`join_scoped` holding the entry has accepted and is about to insert); every forward monitor entry has its
+reverse entry (so the exit will find and remove it), and a reverse monitor entry has its forward entry
+unless it is a recorded stale one. -/
+theorem conc_agreement_outside_own_exit (ops : List Op) (calls : List Conc.Pc) (sched : List Conc.Tid) (a : Nat) :
+    let g := Conc.run (g0 ops calls) sched
+    (Conc.phaseOf g a = .live ∨ Conc.phaseOf g a = .marked) →
+    (∀ k, (a ∈ membersOf g.st k ∨ a ∈ Conc.accOf g k) ↔ k ∈ relMem g.st a) ∧
+    (∀ k, (a ∈ listenersOf g.st k → k ∈ relGmon g.st a) ∧
+      (k ∈ relGmon g.st a → a ∈ listenersOf g.st k ∨ (a, k) ∈ g.staleG)) ∧
+    (∀ s, (a ∈ worldOf g.st s → s ∈ relWmon g.st a) ∧
+      (s ∈ relWmon g.st a → a ∈ worldOf g.st s ∨ (a, s) ∈ g.staleW)) := by
+  intro g hp
+  obtain ⟨⟨r1, r2, r3⟩, f1, f2, f3, _⟩ := conc_cross_index_windows ops calls sched a
+  refine ⟨fun k => ⟨fun h => ?_, r1 k⟩, fun k => ⟨fun h => ?_, r2 k⟩, fun s => ⟨fun h => ?_, r3 s⟩⟩
+  · rcases f1 k h with x | ⟨mk, rm, e, _⟩
+    · exact x
+    · rcases hp with hp | hp <;> (rw [hp] at e; cases e)
+  · rcases f2 k h with x | ⟨gk, wk, e, _⟩
+    · exact x
+    · rcases hp with hp | hp <;> (rw [hp] at e; cases e)
+  · rcases f3 s h with x | ⟨gk, wk, e, _⟩
+    · exact x
+    · rcases hp with hp | hp <;> (rw [hp] at e; cases e)
+
+/-- **No zombie, for every exit of every schedule**: as soon as the exit of `a` has finished — whatever
+the other exits and the callers are still in the middle of — `a` is stopping, a member of no group (not
+even accepted by a `join_scoped` in the middle of its entry region), a listener of none, and its
+reverse-index sets are empty. -/
+theorem conc_no_zombie (ops : List Op) (calls : List Conc.Pc) (sched : List Conc.Tid) (a : Nat) :
+    let g := Conc.run (g0 ops calls) sched
+    Conc.phaseOf g a = .done →
+    a ∈ g.st.dead ∧ (∀ k, a ∉ membersOf g.st k ∧ a ∉ Conc.accOf g k) ∧ (∀ k, a ∉ listenersOf g.st k) ∧
+    (∀ s, a ∉ worldOf g.st s) ∧ (∀ k, k ∉ relMem g.st a) ∧ (∀ k, k ∉ relGmon g.st a) ∧ (∀ s, s ∉ relWmon g.st a) := by
+  intro g hp
+  have h := conc_inv ops calls sched a
+  have hfM := h.fM; have hfL := h.fL; have hfW := h.fW; have hG := h.drG; have hM := h.drM; have hd := h.dead
+  rw [hp] at hfM hfL hfW hG hM hd
+  refine ⟨hd (by simp), fun k => ⟨fun x => hfM k (Or.inl x), fun x => hfM k (Or.inr x)⟩, fun k x => hfL k x,
+    fun s x => hfW s x, hM trivial, (hG trivial).1, (hG trivial).2⟩
+
+/-- **At rest** (every caller has returned, every exit that started has finished, no entry is held): no
+stopping actor is a member or a monitor of anything; forward ↔ reverse agreement is total for memberships;
+every forward monitor entry has its reverse entry, and a reverse monitor entry without its forward entry is a
+recorded stale one (of an actor that is still alive: an exit drains them). -/
+theorem conc_at_rest (ops : List Op) (calls : List Conc.Pc) (sched : List Conc.Tid) :
+    let g := Conc.run (g0 ops calls) sched
+    Conc.atRest g →
+    (∀ a, a ∈ g.st.dead → (∀ k, a ∉ membersOf g.st k) ∧ (∀ k, a ∉ listenersOf g.st k) ∧ (∀ s, a ∉ worldOf g.st s)) ∧
+    (∀ a k, a ∈ membersOf g.st k ↔ k ∈ relMem g.st a) ∧
+    (∀ a k, (a ∈ listenersOf g.st k → k ∈ relGmon g.st a) ∧
+      (k ∈ relGmon g.st a → a ∈ listenersOf g.st k ∨ ((a, k) ∈ g.staleG ∧ a ∉ g.st.dead))) ∧
+    (∀ a s, (a ∈ worldOf g.st s → s ∈ relWmon g.st a) ∧
+      (s ∈ relWmon g.st a → a ∈ worldOf g.st s ∨ ((a, s) ∈ g.staleW ∧ a ∉ g.st.dead))) := by
+  intro g hr
+  have hacc : ∀ k (x : Nat), x ∉ Conc.accOf g k := by
+    intro k x hx
+    unfold Conc.accOf at hx; rw [hr.2.2] at hx; cases hx
+  have hclean : ∀ a, a ∈ g.st.dead → (∀ k, a ∉ membersOf g.st k) ∧ (∀ k, a ∉ listenersOf g.st k) ∧
+      (∀ s, a ∉ worldOf g.st s) := by
+    intro a hd
+    rcases hr.2.1 a with hp | hp
+    · obtain ⟨⟨c1, c2, c3⟩, _⟩ := (conc_inv ops calls sched a).old hp hd
+      exact ⟨fun k x => c1 k (Or.inl x), c2, c3⟩
+    · obtain ⟨_, c1, c2, c3, _⟩ := conc_no_zombie ops calls sched a hp
+      exact ⟨fun k => (c1 k).1, c2, c3⟩
+  -- the reverse-index sets of a stopping actor are empty at rest
+  have hdeadrel : ∀ a, a ∈ g.st.dead → (∀ k, k ∉ relMem g.st a) ∧ (∀ k, k ∉ relGmon g.st a) ∧ (∀ s, s ∉ relWmon g.st a) := by
+    intro a hd
+    rcases hr.2.1 a with hp | hp
+    · exact ((conc_inv ops calls sched a).old hp hd).2
+    · obtain ⟨_, _, _, _, e1, e2, e3⟩ := conc_no_zombie ops calls sched a hp
+      exact ⟨e1, e2, e3⟩
+  have hfwd : ∀ a, (∀ k, (a ∈ membersOf g.st k ∨ a ∈ Conc.accOf g k) → k ∈ relMem g.st a) ∧
+      (∀ k, a ∈ listenersOf g.st k → k ∈ relGmon g.st a) ∧ (∀ s, a ∈ worldOf g.st s → s ∈ relWmon g.st a) := by
+    intro a
+    rcases hr.2.1 a with hp | hp
+    · obtain ⟨e1, e2, e3⟩ := conc_agreement_outside_own_exit ops calls sched a (Or.inl hp)
+      exact ⟨fun k => (e1 k).mp, fun k => (e2 k).1, fun s => (e3 s).1⟩
+    · obtain ⟨_, c1, c2, c3, _⟩ := conc_no_zombie ops calls sched a hp
+      exact ⟨fun k h => h.elim (fun x => absurd x (c1 k).1) (fun x => absurd x (c1 k).2),
+        fun k h => absurd h (c2 k), fun s h => absurd h (c3 s)⟩
+  obtain hrev := fun a => (conc_cross_index_windows ops calls sched a).1
+  refine ⟨hclean, ?_, ?_, ?_⟩
+  · intro a k
+    refine ⟨fun h => (hfwd a).1 k (Or.inl h), fun h => ?_⟩
+    rcases (hrev a).1 k h with x | x
+    · exact x
+    · exact absurd x (hacc k a)
+  · intro a k
+    refine ⟨(hfwd a).2.1 k, fun h => ?_⟩
+    rcases (hrev a).2.1 k h with x | x
+    · exact Or.inl x
+    · exact Or.inr ⟨x, fun hd => (hdeadrel a hd).2.1 k h⟩
+  · intro a s
+    refine ⟨(hfwd a).2.2 s, fun h => ?_⟩
+    rcases (hrev a).2.2 s h with x | x
+    · exact Or.inl x
+    · exact Or.inr ⟨x, fun hd => (hdeadrel a hd).2.2 s h⟩
+
+/-- **Every query is the projection of the membership relation — in EVERY state of every schedule**, not
+only at rest: the forward map keeps unique keys and the scope index lists exactly the groups with
+members (every region that adds or removes a member updates the index while it holds the entry). -/
+theorem conc_queries_are_projections (ops : List Op) (calls : List Conc.Pc) (sched : List Conc.Tid) :
+    let st := (Conc.run (g0 ops calls) sched).st
+    (∀ s g a, a ∈ getMembers st s g ↔ member st s g a) ∧
+    (∀ s g a, a ∈ getLocalMembers st s g ↔ member st s g a ∧ a ∉ st.remote) ∧
+    (∀ g, g ∈ whichGroups st ↔ ∃ s a, member st s g a) ∧
+    (∀ s, s ∈ whichScopes st ↔ ∃ g a, member st s g a) ∧
+    (∀ s g, (s, g) ∈ whichScopesAndGroups st ↔ ∃ a, member st s g a) ∧
+    (∀ s g, g ∈ whichScopedGroups st s ↔ ∃ a, member st s g a) := by
+  intro st
+  have hg : Conc.Glob st := Conc.glob_run (Conc.glob_of_inv (inv_run inv_init ops)) sched
+  refine ⟨fun _ _ _ => Iff.rfl, fun s g a => getLocalMembers_spec st s g a, ?_, ?_, ?_, ?_⟩
+  · intro g
+    simp only [whichGroups, List.mem_map, Conc.mem_nonEmptyKeys_of_nodup hg.kMap, member]
+    constructor
+    · rintro ⟨⟨s, g'⟩, ⟨a, ha⟩, rfl⟩; exact ⟨s, a, ha⟩
+    · rintro ⟨s, a, ha⟩; exact ⟨(s, g), ⟨a, ha⟩, rfl⟩
+  · intro s
+    simp only [whichScopes, List.mem_map, Conc.mem_nonEmptyKeys_of_nodup hg.kMap, member]
+    constructor
+    · rintro ⟨⟨s', g⟩, ⟨a, ha⟩, rfl⟩; exact ⟨g, a, ha⟩
+    · rintro ⟨g, a, ha⟩; exact ⟨(s, g), ⟨a, ha⟩, rfl⟩
+  · intro s g
+    simp only [whichScopesAndGroups, Conc.mem_nonEmptyKeys_of_nodup hg.kMap, member]
+  · intro s g
+    have := hg.idx s g
+    unfold idxOf at this
+    simp only [whichScopedGroups, this, member]
+
+/-- **Linearisation.** Every region of every thread changes the membership read off the forward map
+exactly as the specification's transition for the region's linearised operation: a `join` takes effect at
+the `joinCommit` that ends its entry-lock region, for exactly the actors it accepted — and an actor is
+accepted only at an instant at which it is not stopping (its status re-check under its relations lock;
+several actors of one call at several instants); a `leave` takes effect in its entry-lock region; the
+automatic leave of an exiting actor takes effect one group at a time in the `leave_all` iterations; no
+other region (filters, `joinLock`/`joinOne`, clean-ups, notification regions, monitor / demonitor
+regions, the other exit regions, blocked steps) changes membership. Hence along every schedule the
+concrete membership IS the abstract relation evolved by the linearised operations. -/
+theorem conc_membership_linearizable (ops : List Op) (calls : List Conc.Pc) (sched : List Conc.Tid) (k : Key) (x : Nat) :
+    (∀ (g : Conc.G) (t : Conc.Tid),
+      x ∈ membersOf (Conc.step g t).st k ↔
+        Conc.specLin (fun k x => x ∈ membersOf g.st k) (Conc.linOf g t) k x) ∧
+    (∀ (g : Conc.G) (t : Conc.Tid), x ∈ Conc.accOf (Conc.step g t) k → x ∈ Conc.accOf g k ∨ x ∉ g.st.dead) ∧
+    (x ∈ membersOf (Conc.run (g0 ops calls) sched).st k ↔
+      Conc.absRun (fun k x => x ∈ membersOf (run init ops) k) (g0 ops calls) sched k x) :=
+  ⟨fun g t => Conc.lin_step g t k x, fun g t => Conc.accepted_alive g t k x, Conc.lin_run (g0 ops calls) sched k x⟩
+
+/-- **Each change is reported exactly once, to the listeners of the instant of the change.**
+(1) Every region appends at most the change records of its own linearised operation and each record
+carries `recipients` of the state the region ran in (group listeners ++ scope listeners ++ all-scopes
+listeners read under the entry lock). (2) For every schedule, as multisets: everything sent so far plus
+what the in-flight operations still owe (a caller between its entry region and its notification
+region, an exit between a `leave_all` iteration and its `finish`) = one `notifyPending` per recorded
+change. (3) At rest nothing is owed: the notifications sent are a permutation of exactly one event per
+recorded recipient per change. -/
+theorem conc_notifications_exactly_once (ops : List Op) (calls : List Conc.Pc) (sched : List Conc.Tid)
+    (hfresh : ∀ pc ∈ calls, Conc.pcOwed pc = []) :
+    let g := Conc.run (g0 ops calls) sched
+    (∀ (g : Conc.G) (t : Conc.Tid), ∃ new, (Conc.step g t).changes = g.changes ++ new ∧
+        ∀ p ∈ new, p.to = recipients g.st (p.s, p.g)) ∧
+    (g.sent ++ Conc.owed g).Perm (g.changes.flatMap notifyPending) ∧
+    (Conc.atRest g → g.sent.Perm (g.changes.flatMap notifyPending)) := by
+  intro g
+  have ha : Conc.Acct g := Conc.acct_run (Conc.acct_start _ calls hfresh) sched
+  have hp : (g.sent ++ Conc.owed g).Perm (g.changes.flatMap notifyPending) := List.perm_iff_count.mpr ha.bal
+  refine ⟨Conc.records_step, hp, ?_⟩
+  intro hr
+  have := Conc.owed_atRest ha.kEx hr
+  rw [this, List.append_nil] at hp
+  exact hp
+
+/-- **Every effective membership change is reported** — for every region of every thread in every
+state: if the region changes whether `x` is a member of group `k`, then it appends exactly one change
+record, for that group, containing `x`, of the right kind (join iff `x` is a member afterwards), with the
+recipients read in that very region (`recipients` of the state the region ran in). With
+`conc_notifications_exactly_once` (one event per recorded recipient per record, as multisets, for all
+schedules): each join, each leave and each automatic leave of a raced exit — one `Leave` per group the
+exiting actor was still in when `leave_all` reached it; a group a racing `leave_scoped` took it out of
+first is reported by that call instead — reaches exactly the monitors of the instant of the change. -/
+theorem conc_every_change_recorded (g : Conc.G) (t : Conc.Tid) (k : Key) (x : Nat)
+    (hch : ¬ (x ∈ membersOf (Conc.step g t).st k ↔ x ∈ membersOf g.st k)) :
+    ∃ p, (Conc.step g t).changes = g.changes ++ [p] ∧ (p.s, p.g) = k ∧ x ∈ p.actors ∧
+      (p.isJoin = true ↔ x ∈ membersOf (Conc.step g t).st k) ∧ p.to = recipients g.st k :=
+  Conc.change_recorded g t k x hch
+
+/-- **With the right actors.** Every record a region appends is sound for the state right after that
+region: every actor it reports as joined is a member of the group then, every actor it reports as having
+left is not. (A join's payload = the call's actors that were accepted, duplicates kept; a leave's payload =
+the caller's list verbatim, so it may name actors that were not members — the surplus is never a member
+afterwards.) -/
+theorem conc_payload_sound (g : Conc.G) (t : Conc.Tid) :
+    ∃ new, (Conc.step g t).changes = g.changes ++ new ∧ ∀ p ∈ new, ∀ x ∈ p.actors,
+      (p.isJoin = true → x ∈ membersOf (Conc.step g t).st (p.s, p.g)) ∧
+      (p.isJoin = false → x ∉ membersOf (Conc.step g t).st (p.s, p.g)) :=
+  Conc.payload_step g t
+
+/-- **The lock table is the holders' local state.** For every schedule (no thread starts inside an entry
+region): a thread inside `join_scoped`'s entry region is the recorded holder of that group entry, the table
+carries its own `actors`, what it still has to look at is among them — so the robustness guard
+`x ∈ asOf …` in `joinOne` never fires (`joinOne` accepts exactly the actors that pass the status re-check),
+and two threads are never inside the entry region of the same group. -/
+theorem conc_join_guard_vacuous (ops : List Op) (calls : List Conc.Pc) (sched : List Conc.Tid)
+    (hfresh : ∀ pc ∈ calls, ∀ s g as todo, pc ≠ .joinIn s g as todo) :
+    let g := Conc.run (g0 ops calls) sched
+    (∀ (i s g' : Nat) (as todo : List Nat) (x : Nat), g.thr[i]? = some (.joinIn s g' as (x :: todo)) →
+      (Conc.asOf g (s, g')).contains x = true) ∧
+    (∀ (i j s g' : Nat) (as as' todo todo' : List Nat), g.thr[i]? = some (.joinIn s g' as todo) →
+      g.thr[j]? = some (.joinIn s g' as' todo') → i = j) := by
+  intro g
+  have h0 : Conc.HoldInv (g0 ops calls) := by
+    intro i s g' as todo hi
+    exact absurd rfl (hfresh _ (List.mem_of_getElem? hi) s g' as todo)
+  have h : Conc.HoldInv g := Conc.holdInv_run h0 sched
+  refine ⟨fun i s g' as todo x hp => Conc.join_guard_true h hp, ?_⟩
+  intro i j s g' as as' todo todo' hi hj
+  obtain ⟨⟨acc, hacc⟩, _⟩ := h i s g' as todo hi
+  obtain ⟨⟨acc', hacc'⟩, _⟩ := h j s g' as' todo' hj
+  rw [hacc] at hacc'
+  simp only [Option.some.injEq, Prod.mk.injEq] at hacc'
+  exact hacc'.1
+
+/-- Where a stale reverse-only monitor entry comes from: only the entry region of a `demonitor` whose
+`get_actor_relations` had found no `Arc` records one (and likewise `demonitor_scope` for `staleW`). -/
+theorem conc_stale_origin (g : Conc.G) (t : Conc.Tid) (x : Nat) (k : Key) (h : (x, k) ∈ (Conc.step g t).staleG) :
+    (x, k) ∈ g.staleG ∨
+      ∃ i g1, t = .call i ∧ g.thr[i]? = some (.demonitorFwd g1 x) ∧ k = (defaultScope, g1) :=
+  Conc.stale_origin g t x k h
+
+/-- witness (the real code does this; found while modelling): actor 5 has no reverse-index entry;
+`demonitor(0, 5)` fetches `None`; `monitor(0, 5)` runs completely (creates the entry, registers 5 on both
+sides); the demonitor's entry region removes 5 from the forward listener list only. At rest 5 is not a
+listener — the forward side is the linearised `monitor; demonitor` — but its reverse index still lists the
+group: a stale entry, recorded in `staleG`. -/
+example :
+    let g := Conc.run (g0 [] [.demonitorCall 0 5, .monitor 0 5]) [.call 0, .call 1, .call 1, .call 0, .call 1]
+    g.thr = [.done, .done] ∧ listenersOf g.st (defaultScope, 0) = [] ∧ relGmon g.st 5 = [(defaultScope, 0)] ∧
+    g.staleG = [(5, (defaultScope, 0))] := by decide
+
+/-- **No reverse-index leak under interleaving.** For every schedule: the reverse-index ENTRY of an actor
+whose exit has finished (or that was stopping from the start) exists only while some `monitor` /
+`monitor_scope` call naming it is between its `get_or_create_actor_relations` and the end of its re-check
+region — which removes it again; at rest no stopping actor has an entry. -/
+theorem conc_no_reverse_index_leak (ops : List Op) (calls : List Conc.Pc) (sched : List Conc.Tid) (a : Nat) :
+    let g := Conc.run (g0 ops calls) sched
+    (a ∈ g.st.dead → (Conc.phaseOf g a = .done ∨ Conc.phaseOf g a = .live) → (get g.st.rel a).isSome = true →
+      ∃ (i : Nat) (pc : Conc.Pc), g.thr[i]? = some pc ∧ Conc.holdsRel a pc) ∧
+    (Conc.atRest g → a ∈ g.st.dead → get g.st.rel a = none) := by
+  intro g
+  have hs := Conc.allInv_start (inv_run inv_init ops) calls
+  have h : Conc.NoLeak g a :=
+    Conc.noLeak_run hs.1 hs.2 (fun a => Conc.noLeak_start (inv_run inv_init ops) calls a) sched a
+  refine ⟨fun hd hp hsome => h ⟨hd, hp⟩ hsome, ?_⟩
+  intro hr hd
+  cases hg : get g.st.rel a with
+  | none => rfl
+  | some r =>
+    exfalso
+    have hp : Conc.phaseOf g a = .done ∨ Conc.phaseOf g a = .live := (hr.2.1 a).symm
+    obtain ⟨i, pc, hi, hq⟩ := h ⟨hd, hp⟩ (by unfold Conc.relSome; rw [hg]; rfl)
+    have hmem : pc ∈ g.thr := List.mem_of_getElem? hi
+    rw [hr.1 pc hmem] at hq
+    exact hq
+
+/-- non-vacuity: thread 0 joins actors 1 and 2 to a second group (1,1) while both exit and thread 1
+starts monitoring scope 1. Actor 1 passes the status re-check of the join (`joinOne`), THEN publishes
+`Stopping` and drains its reverse index (the accepted membership is among the drained keys), actor 2
+publishes `Stopping` and is rejected by its own re-check; the exit's `lvKey (1,1)` is blocked while the
+join holds the entry; the join commits `[1]` — a stopping actor becomes a member for a moment, accounted
+for by the pending key of its own exit — and the exit then removes it and tells the scope monitor that
+registered in between. At rest both are gone and every Leave was sent once. -/
+example :
+    let g := g0 [.join 1 0 [1, 2], .monitor 0 9] [.join 1 1 [1, 2], .monitorScope 1 8]
+    let mid := Conc.run g [.call 0, .call 0, .call 0, .ex 1 .mark, .ex 1 .demTake, .ex 1 .demDone, .ex 1 .take,
+      .ex 2 .mark, .call 1, .call 0]
+    let mid2 := Conc.run mid [.ex 1 (.lvKey (1, 1)), .call 0]
+    let fin := Conc.run mid2 [.call 1, .call 1, .ex 2 .demTake, .ex 2 .demDone, .ex 2 .take, .call 0,
+      .ex 1 (.lvKey (1, 0)), .ex 1 (.lvKey (1, 1)), .ex 2 (.lvKey (1, 0)), .ex 2 .finish, .ex 1 .finish, .call 0]
+    membersOf mid.st (1, 1) = [] ∧ Conc.accOf mid (1, 1) = [1] ∧ relMem mid.st 1 = [] ∧
+    Conc.phaseOf mid 1 = .leaving [(1, 0), (1, 1)] [] ∧
+    membersOf mid2.st (1, 1) = [1] ∧ Conc.phaseOf mid2 1 = .leaving [(1, 0), (1, 1)] [] ∧ mid2.locks = [] ∧
+    membersOf fin.st (1, 0) = [] ∧ membersOf fin.st (1, 1) = [] ∧ fin.thr = [.done, .done] ∧
+    Conc.phaseOf fin 1 = .done ∧ Conc.phaseOf fin 2 = .done ∧
+    fin.sent = [⟨9, false, 1, 0, [2]⟩, ⟨8, false, 1, 0, [2]⟩, ⟨9, false, 1, 0, [1]⟩, ⟨8, false, 1, 0, [1]⟩,
+      ⟨8, false, 1, 1, [1]⟩] ∧
+    Conc.windowFailing mid2.st mid2.exits = [] ∧ Conc.windowFailing fin.st fin.exits = [] := by decide
+
+/-- test (one instance, not a theorem): run with nobody in between, the stepped entry-lock region of
+`join_scoped` (`joinLock`, one `joinOne` per distinct actor, `joinCommit`) ends in the state of the one-step
+`joinEntry` that the E-THR engine replays (same lookups in the forward map, scope index and reverse
+index), with the same payload (duplicates kept, the stopping actor 3 dropped) and the same recipients -/
+example :
+    let st0 := run init [.join 1 0 [1, 2], .monitor 0 9, .monitorScope 1 8, .exit 3]
+    let g := Conc.run (Conc.start st0 [.joinFiltered 1 0 [2, 4, 3, 4, 2]]) (List.replicate 5 (.call 0))
+    let je := joinEntry st0 1 0 [2, 4, 3, 4, 2]
+    g.thr = [.joinEntered 1 0 [2, 4, 3, 4, 2] je.2] ∧ g.locks = [] ∧
+    je.2 = some ⟨true, 1, 0, [2, 4, 4, 2], [9, 8]⟩ ∧
+    get g.st.map (1, 0) = get je.1.map (1, 0) ∧ g.st.index = je.1.index ∧
+    ([1, 2, 3, 4].all fun a => get g.st.rel a == get je.1.rel a) = true := by decide
+
 end C11
 
 #print axioms C11.ok_reachable
@@ -428,3 +805,16 @@ end C11
 #print axioms C11.leave_recipients_fixed_at_entry
 #print axioms C11.exit_leave_recipients_fixed_at_removal
 #print axioms C11.recipients_legacy_not_fixed
+#print axioms C11.conc_cross_index_windows
+#print axioms C11.conc_agreement_outside_own_exit
+#print axioms C11.conc_no_zombie
+#print axioms C11.conc_at_rest
+#print axioms C11.conc_queries_are_projections
+#print axioms C11.conc_membership_linearizable
+#print axioms C11.conc_notifications_exactly_once
+#print axioms C11.conc_every_change_recorded
+#print axioms C11.conc_inv
+#print axioms C11.conc_no_reverse_index_leak
+#print axioms C11.conc_payload_sound
+#print axioms C11.conc_join_guard_vacuous
+#print axioms C11.conc_stale_origin
